@@ -113,13 +113,13 @@ void dispatch(const Desc& d)
         {
             typedef SparseGenRealShiftSolve<T> In;
             typedef GenEigsRealShiftSolver<CountOp<In> > Solver;
-            run_with<T, Solver, In>(d, cx, [&]() { return new In(As); }, [&](CountOp<In>& op) { return new Solver(op, nev, ncv, sigma); });
+            run_with<T, Solver, In>(d, cx, [&]() { In* in = new In(As); if (d.has("presig")) in->set_shift((T) d.f("presig")); return in; }, [&](CountOp<In>& op) { return new Solver(op, nev, ncv, sigma); });
         }
         else
         {
             typedef DenseGenRealShiftSolve<T> In;
             typedef GenEigsRealShiftSolver<CountOp<In> > Solver;
-            run_with<T, Solver, In>(d, cx, [&]() { return new In(A); }, [&](CountOp<In>& op) { return new Solver(op, nev, ncv, sigma); });
+            run_with<T, Solver, In>(d, cx, [&]() { In* in = new In(A); if (d.has("presig")) in->set_shift((T) d.f("presig")); return in; }, [&](CountOp<In>& op) { return new Solver(op, nev, ncv, sigma); });
         }
     }
     else if (cls == "gencs")
@@ -139,13 +139,13 @@ void dispatch(const Desc& d)
         {
             typedef SparseGenComplexShiftSolve<T> In;
             typedef GenEigsComplexShiftSolver<CountOp<In> > Solver;
-            run_with<T, Solver, In>(d, cx, [&]() { return new In(As); }, [&](CountOp<In>& op) { return new Solver(op, nev, ncv, sr, si); });
+            run_with<T, Solver, In>(d, cx, [&]() { In* in = new In(As); if (d.has("presig")) in->set_shift((T) d.f("presig"), (T) d.f("presigi", 1.0L)); return in; }, [&](CountOp<In>& op) { return new Solver(op, nev, ncv, sr, si); });
         }
         else
         {
             typedef DenseGenComplexShiftSolve<T> In;
             typedef GenEigsComplexShiftSolver<CountOp<In> > Solver;
-            run_with<T, Solver, In>(d, cx, [&]() { return new In(A); }, [&](CountOp<In>& op) { return new Solver(op, nev, ncv, sr, si); });
+            run_with<T, Solver, In>(d, cx, [&]() { In* in = new In(A); if (d.has("presig")) in->set_shift((T) d.f("presig"), (T) d.f("presigi", 1.0L)); return in; }, [&](CountOp<In>& op) { return new Solver(op, nev, ncv, sr, si); });
         }
     }
     else
